@@ -1,1 +1,105 @@
-//! (to be filled)
+//! E4: call-level schedule / history exploration on real OS threads. The controller holds the
+//! baton: exactly one API call runs at a time, on the thread the history names. Real threads matter
+//! because thread_rng and any thread_local a change might introduce are per OS thread.
+
+use std::sync::mpsc::{channel, Sender};
+use std::thread::JoinHandle;
+
+type Job = Box<dyn FnOnce() + Send + 'static>;
+
+pub struct Worker {
+    tx: Option<Sender<Job>>,
+    handle: Option<JoinHandle<()>>,
+}
+
+impl Worker {
+    pub fn new(name: &str) -> Worker {
+        let (tx, rx) = channel::<Job>();
+        let handle = std::thread::Builder::new()
+            .name(name.to_string())
+            .stack_size(64 << 20)
+            .spawn(move || {
+                while let Ok(job) = rx.recv() {
+                    job();
+                }
+            })
+            .expect("spawn worker");
+        Worker { tx: Some(tx), handle: Some(handle) }
+    }
+
+    /// run `f` on this worker and wait for the result (panics inside `f` are returned as Err)
+    pub fn call<R: Send + 'static>(&self, f: impl FnOnce() -> R + Send + 'static) -> Result<R, String> {
+        let (rtx, rrx) = channel();
+        let job: Job = Box::new(move || {
+            let r = crate::ctx::catch(f);
+            let _ = rtx.send(r);
+        });
+        self.tx.as_ref().unwrap().send(job).map_err(|_| "worker gone".to_string())?;
+        rrx.recv().map_err(|_| "worker died".to_string())?
+    }
+}
+
+impl Drop for Worker {
+    fn drop(&mut self) {
+        self.tx.take();
+        if let Some(h) = self.handle.take() {
+            let _ = h.join();
+        }
+    }
+}
+
+/// run `f` on a freshly spawned thread (initial thread-local state) and wait
+pub fn on_fresh_thread<R: Send + 'static>(f: impl FnOnce() -> R + Send + 'static) -> Result<R, String> {
+    let h = std::thread::Builder::new()
+        .stack_size(64 << 20)
+        .spawn(move || crate::ctx::catch(f))
+        .map_err(|e| e.to_string())?;
+    h.join().map_err(|_| "thread join failed".to_string())?
+}
+
+/// all sequences of length `depth` over `alphabet` symbols (odometer order: simplest first)
+pub fn sequences(alphabet: usize, depth: usize) -> Vec<Vec<usize>> {
+    let mut out = vec![];
+    let total = (alphabet as u64).pow(depth as u32);
+    for mut k in 0..total {
+        let mut s = vec![0usize; depth];
+        for i in (0..depth).rev() {
+            s[i] = (k % alphabet as u64) as usize;
+            k /= alphabet as u64;
+        }
+        out.push(s);
+    }
+    out
+}
+
+/// all interleavings of thread programs of the given lengths, as sequences of thread indices
+pub fn interleavings(lens: &[usize]) -> Vec<Vec<usize>> {
+    fn rec(rem: &mut Vec<usize>, cur: &mut Vec<usize>, out: &mut Vec<Vec<usize>>) {
+        if rem.iter().all(|&r| r == 0) {
+            out.push(cur.clone());
+            return;
+        }
+        for t in 0..rem.len() {
+            if rem[t] > 0 {
+                rem[t] -= 1;
+                cur.push(t);
+                rec(rem, cur, out);
+                cur.pop();
+                rem[t] += 1;
+            }
+        }
+    }
+    let mut out = vec![];
+    rec(&mut lens.to_vec(), &mut vec![], &mut out);
+    out
+}
+
+/// run this executable as a child process: `falcon-mc child <args...>`; returns stdout
+pub fn child(args: &[&str]) -> Result<String, String> {
+    let exe = std::env::current_exe().map_err(|e| e.to_string())?;
+    let out = std::process::Command::new(exe).arg("child").args(args).output().map_err(|e| e.to_string())?;
+    if !out.status.success() {
+        return Err(format!("child {:?} failed: {}", args, String::from_utf8_lossy(&out.stderr)));
+    }
+    Ok(String::from_utf8_lossy(&out.stdout).to_string())
+}
